@@ -143,6 +143,8 @@ def ref_walk(ctx, W, steps, stream=None):
             try:
                 if interp.applicable(S, W.action(a), args, W.D, W.objs):
                     S2, _ = interp.successor(S, W.action(a), args, W.D, W.objs)
+                    if interp.too_large(S2):
+                        continue
                     S = S2
                     trail.append((a, args))
                     done = True
@@ -178,6 +180,8 @@ def pick_applicable_call(ctx, W, S, stream, tries=12, want_consistent=True):
         try:
             if interp.applicable(S1, act, c[1], W.D, W.objs):
                 want, info = interp.successor(S1, act, c[1], W.D, W.objs)
+                if interp.too_large(want):
+                    continue
                 return S1, c, want, info
         except interp.Inconsistent:
             ctx.probes["inconsistent_skipped"] += 1
